@@ -357,6 +357,9 @@ def build(modname):
                 if T.get('meddle'):
                     _meddle(T['meddle'])
                 _writes(T, 'body')
+                if T.get('nested_run'):
+                    _nested_run()
+                    _writes(T, 'after_nested')
                 for spec in T.get('threads', []):
                     _start_thread(tidx, spec)
                 import contextlib
@@ -403,6 +406,23 @@ def build(modname):
             return suite
         ns['test_suite'] = test_suite
     return ns
+
+
+def _nested_run():
+    """Run the test runner in this process, with --buffer, on a small module of its own (one passing test that prints, one failing)."""
+    import shutil
+    import tempfile
+    import zope.testrunner
+    d = tempfile.mkdtemp(prefix='vwinner_')
+    try:
+        with open(os.path.join(d, 'vwinner_mod.py'), 'w') as f:
+            f.write('import unittest\n\n\nclass Inner(unittest.TestCase):\n'
+                    '    def test_quiet(self):\n        print("inner noise")\n\n'
+                    '    def test_loud(self):\n        print("inner failing noise")\n        self.fail("inner failure")\n')
+        zope.testrunner.run_internal([], ['inner', '--path', d, '--tests-pattern', '^vwinner_mod$', '--buffer'])
+    finally:
+        sys.modules.pop('vwinner_mod', None)
+        shutil.rmtree(d, ignore_errors=True)
 
 
 def _pair(self, table):
